@@ -10,6 +10,12 @@ import (
 )
 
 func main() {
+	// the in-process importer and the runner shell out to the go tool: no network, module mode
+	for k, v := range map[string]string{"GOFLAGS": "-mod=mod", "GOPROXY": "off", "GOSUMDB": "off", "GOTOOLCHAIN": "local"} {
+		if os.Getenv(k) == "" {
+			os.Setenv(k, v)
+		}
+	}
 	if len(os.Args) < 2 {
 		fmt.Fprintln(os.Stderr, "usage: semh range|interp|errwrap|compr < cases.ndjson   |   semh try file.xgo")
 		os.Exit(3)
